@@ -162,6 +162,8 @@ def gen_case(rng, kind):
     if kind == "exact" and not d["single"] and rng.random() < 0.7:
         d["fraction"] = rng.choice([0.0625, 0.125, 0.25, 0.5])
     d["alpha"] = site(0.5, 1.0, 0.6, improper=False) if kind == "alpha" else None
+    # a theory with its own fittable parameter (MieLens lens angle): comes between scatterer and optics priors
+    d["theory"] = ["mielens", site(0.75, 1.125, 0.7, improper=False)] if (kind == "alpha" and rng.random() < 0.25) else None
     # noise of the model / of the data
     u = rng.random()
     if u < 0.35:
@@ -260,6 +262,8 @@ def _sites(d):
             yield c
     if d["alpha"] is not None:
         yield d["alpha"]
+    if d.get("theory") is not None:
+        yield d["theory"][1]
     if d["noise"] is not None and d["noise"][0] == "p":
         yield d["noise"]
     for key in OPT_KEYS:
@@ -412,6 +416,9 @@ def build(d):
     elif d["fail"] == "MultisphereFailure":
         counter.fail = MultisphereFailure()
     if d["kind"] == "alpha":
+        if d.get("theory") is not None:
+            from holopy.scattering.theory import MieLens
+            okw["theory"] = MieLens(lens_angle=obj(d["theory"][1]))
         model = AlphaModel(scat, alpha=obj(d["alpha"]), noise_sd=noise, constraints=cons, **okw)
     elif d.get("default_calc"):
         model = ExactModel(scat, noise_sd=noise, constraints=cons, **okw)
@@ -601,9 +608,14 @@ def run_case(ctx, d, exprs, metas, tag):
         ll_calls = ncalls() - c0
         fvals = None
         fwd_equal = None
+        theory = "auto"                 # the model was built with theory='auto': the default theory of the scatterer
+        if d.get("theory") is not None:
+            from holopy.scattering.theory import MieLens
+            ts = d["theory"][1]
+            theory = MieLens(lens_angle=d["vals"][ts[1]] if ts[0] == "p" else ts[1])
         if ll[0] == "val":
             if alpha:
-                expect = calc_holo(data, scat, theory=model.theory_from_parameters(pars),
+                expect = calc_holo(data, scat, theory=theory,
                                    scaling=d["vals"][d["alpha"][1]] if d["alpha"][0] == "p" else d["alpha"][1],
                                    **fo[1])
                 got = model.forward(pars, data)
@@ -626,7 +638,7 @@ def run_case(ctx, d, exprs, metas, tag):
                 np.random.seed(d["seed"])
                 sub = make_subset_data(data, pixels=d["pixels"])
                 if alpha:
-                    fs = calc_holo(sub, scat, theory=model.theory_from_parameters(pars),
+                    fs = calc_holo(sub, scat, theory=theory,
                                    scaling=d["vals"][d["alpha"][1]] if d["alpha"][0] == "p" else d["alpha"][1], **fo[1])
                 else:
                     fs = synth(sub, scat, fo[1]["medium_index"], fo[1]["illum_wavelen"], fo[1]["illum_polarization"])
@@ -642,6 +654,10 @@ def run_case(ctx, d, exprs, metas, tag):
     finally:
         if alpha and orig is not None:
             im.calc_holo = orig
+    if any(r[0] == "val" and r[1] != r[1] for r in (lp, ll, post, wr)):
+        # a NaN hologram (e.g. a lens angle beyond pi/2 reached by an out-of-support value): outside the property
+        ctx.count("skipped:nan-likelihood")
+        return
     impl = dict(lnprior=lp, lnlike=ll, lnposterior=post, wrapper=wr, calls=dict(prior=prior_calls, lnlike=ll_calls,
                 posterior=post_calls, wrapper=wr_calls), find_noise=fn[0], find_optics=fo[0], forward_equal=fwd_equal)
     meta["impl"] = impl
@@ -656,6 +672,8 @@ def run_case(ctx, d, exprs, metas, tag):
                                      d["data_noise"] if not isinstance(d["data_noise"], list) else d["data_noise"][0]))
     ctx.count("lnlike:" + ("error%d" % ll[1] if ll[0] == "err" else ("neg-inf" if ll[1] == float("-inf") else "finite")))
     ctx.count("pixels:" + ("subset" if d["pixels"] is not None else "all"))
+    if d.get("theory") is not None:
+        ctx.count("theory:MieLens(lens_angle %s)" % ("prior" if d["theory"][1][0] == "p" else "const"))
     for pr in d["priors"].values():
         ctx.count("prior:" + pr[0] + (":improper" if pr[0] == "U" and (pr[1] is None or pr[2] is None) else ""))
     if d["fraction"] is not None:
@@ -866,6 +884,7 @@ def stage_default_calc(ctx):
     for k in range(ctx.n(12, 120)):
         d = gen_case(rng, "alpha")
         d["alpha"] = ["c", 1.0]
+        d["theory"] = None
         _prune(d)
         d2 = copy.deepcopy(d)
         d2["kind"], d2["alpha"], d2["default_calc"] = "exact", None, True
@@ -886,13 +905,96 @@ def stage_default_calc(ctx):
                               dict(kind="default", case=d))
 
 
+def stage_channels(ctx):
+    """two-colour holograms with PER-CHANNEL noise, given (a) by the data's attribute (a dict, stored by
+    update_metadata as a DataArray over 'illumination'), (b) to the model as a dict, (c) to the model as a dict
+    holding a prior.  lnlike vs the Coq model on the per-pixel broadcast sigma list, vs scipy, and
+    lnposterior = lnprior + lnlike."""
+    import numpy as np
+    import xarray as xr
+    from scipy import stats
+    from holopy.core import prior
+    from holopy.core.metadata import detector_grid, update_metadata
+    from holopy.scattering import Sphere, calc_holo
+    from holopy.inference.model import AlphaModel
+    rng = ctx.subrng("channels")
+    exprs, metas = [], []
+    for k in range(ctx.n(9, 60)):
+        source = ["data", "model", "model-prior"][k % 3]
+        shape = rng.choice([(3, 4), (4, 3), (2, 5)])
+        chans = ["red", "green"]
+        wl = {"red": 0.66, "green": rng.choice([0.52, 0.405])}
+        pol = {"red": (1, 0), "green": rng.choice([(0, 1), (1, 0)])}
+        nz = {"red": rng.uniform(0.02, 0.2), "green": rng.uniform(0.02, 0.2)}
+        rv, av = rng.uniform(0.4, 0.7), rng.uniform(0.6, 0.95)
+        case = dict(kind="channels", source=source, shape=list(shape), wavelen=wl, pol=pol, noise=nz, r=rv, alpha=av, index=k)
+        det = detector_grid(shape=shape, spacing=0.25, extra_dims={"illumination": chans})
+        truth = Sphere(n=1.5, r=0.5, center=(0.5, 0.5, 8.0))
+        data = calc_holo(det, truth, 1.33, wl, pol)
+        pert = np.array([0.03125 * (((7 * i) % 9) - 4) for i in range(data.size)]).reshape(data.shape)
+        data = data + pert
+        data.attrs = dict(medium_index=None, illum_wavelen=None, illum_polarization=None, noise_sd=None)
+        with warnings.catch_warnings():
+            warnings.simplefilter("ignore")
+            pr_r, pr_a = prior.Uniform(0.25, 1.0), prior.Uniform(0.5, 1.0)
+            sp = Sphere(n=1.5, r=pr_r, center=(0.5, 0.5, 8.0))
+            pars = [rv, av]
+            if source == "data":
+                data = update_metadata(data, noise_sd=nz)
+                mnoise = None
+            elif source == "model":
+                mnoise = dict(nz)
+            else:
+                pr_n = prior.Uniform(0.01, 0.25)
+                mnoise = {"red": nz["red"], "green": pr_n}
+            model = AlphaModel(sp, alpha=pr_a, noise_sd=mnoise, medium_index=1.33, illum_wavelen=wl, illum_polarization=pol)
+            if source == "model-prior":
+                pars = [rv, nz["green"], av]      # scatterer, optics (noise), model (alpha)
+            ctx.explored += 1
+            ctx.count("channels:noise-from-" + source)
+            lp = float(model.lnprior(pars))
+            try:
+                ll = float(model.lnlike(pars, data))
+                post = float(model.lnposterior(pars, data))
+            except Exception as ex:  # noqa
+                ctx.violation("noise:%s-dict:%s" % (source.split("-")[0], type(ex).__name__),
+                              "a model with per-channel noise (noise_sd given %s as a dict over the illumination "
+                              "channels) cannot evaluate lnlike / lnposterior: %s: %s" % (
+                                  "by the data" if source == "data" else "to the Model", type(ex).__name__, str(ex)[:150]),
+                              dict(kind="channels", case=case, error=type(ex).__name__))
+                continue
+            f = calc_holo(data, Sphere(n=1.5, r=rv, center=(0.5, 0.5, 8.0)), 1.33, wl, pol, scaling=av)
+        f = f.transpose(*data.dims)
+        sig = xr.DataArray([nz[c] for c in chans], dims="illumination", coords={"illumination": chans})
+        sig = sig.broadcast_like(data).transpose(*data.dims)
+        ds = [float(x) for x in data.values.ravel()]
+        fs = [float(x) for x in f.values.ravel()]
+        ss = [float(x) for x in sig.values.ravel()]
+        ref = float(np.sum(stats.norm.logpdf(np.array(ds), loc=np.array(fs), scale=np.array(ss))))
+        meta = dict(kind="channels", case=case, impl=dict(lnprior=lp, lnlike=ll, lnposterior=post, reference=ref),
+                    whats=["lnlike", "lnposterior"])
+        if abs(ref - ll) > 1e-9 * max(1.0, abs(ref)):
+            ctx.violation("gauss:lnlike:channels", "per-channel lnlike is not the Gaussian log-density of the residuals", meta)
+        if abs(post - (lp + ll)) > 1e-9 * max(1.0, abs(post)):
+            ctx.violation("sum:lnposterior:channels", "lnposterior != lnprior + lnlike (per-channel noise)", meta)
+        keys = [2 * math.pi] + list(dict.fromkeys(ss))
+        pre = ("let lnT := tab %s in let piq := %s in let ll := lnlike_fin QO lnT piq (NArray %s) %s %s in\n" % (
+            listlit(["(%s, %s)" % (qlit(x), qlit(math.log(x))) for x in keys]), qlit(math.pi),
+            listlit([qlit(x) for x in ss]), listlit([qlit(x) for x in ds]), listlit([qlit(x) for x in fs])))
+        exprs.append((pre, ["qclose %s ll %s" % (TOL, qlit(ll)), "qclose %s (%s + ll) %s" % (TOL, qlit(lp), qlit(post))]))
+        metas.append(meta)
+        ctx.nontriv(("channels", source, tuple(shape)))
+    if exprs:
+        finish_batch(ctx, "C12c", exprs, metas)
+
+
 def run(ctx):
     ctx.rule = ("models: ExactModel with a counting synthetic calc_func (Sphere / Spheres of 2-3, ties, complex and transformed "
                 "priors, LimitOverlaps with dyadic geometry on / 2^-20 beside the boundary, calc_func refusing) and AlphaModel "
                 "with real Mie; priors Uniform (proper, one- and two-sided improper), Gaussian, BoundedGaussian (one/two bounds); "
                 "values inside / outside / exactly on the support bounds, negative radii inside the support; noise and each "
                 "optics key from the model (constant, array, prior) or the data (absent, None, scalar, array); full image and "
-                "random pixel subsets; non-trivial = distinct (model kind, scatterer kind, prior outcome class, likelihood "
+                "random pixel subsets; two-colour holograms with per-channel noise from the data / the model; non-trivial = distinct (model kind, scatterer kind, prior outcome class, likelihood "
                 "outcome, noise source, subset?, constraint?, #priors) classes")
     ctx.clauses_proved = ["lnlike = sum_i ln N(d_i; f_i, s_i) for every pixel list (per-pixel and scalar noise)",
                           "lnposterior = lnprior + lnlike (explicit formula incl. pixel subset, one forward call)",
@@ -914,6 +1016,11 @@ def run(ctx):
     guarded(ctx, "fixed", stage_fixed, ctx)
     guarded(ctx, "generated", stage_generated, ctx)
     guarded(ctx, "default_calc", stage_default_calc, ctx)
+    guarded(ctx, "channels", stage_channels, ctx)
+    total = ctx.hist.get("model:exact:single", 0) + ctx.hist.get("model:exact:cluster", 0) + ctx.hist.get("model:alpha:single", 0)
+    if ctx.hist.get("skipped:nan-likelihood", 0) > 0.1 * max(1, total):
+        ctx.violation("nan:likelihood", "more than 10%% of the generated cases give a NaN likelihood (%d of %d)"
+                      % (ctx.hist["skipped:nan-likelihood"], total), dict(kind="nan"), nofail=True)
 
 
 def replay(ctx, data):
@@ -921,6 +1028,10 @@ def replay(ctx, data):
     boot.boot()
     d = data["data"]
     case = d.get("case")
+    if d.get("kind") == "channels":
+        print("replay: re-running the per-channel noise stage")
+        guarded(ctx, "channels", stage_channels, ctx)
+        return
     if case is None or d.get("kind") == "default":
         print("replay: re-running the whole check with the recorded seed")
         ctx.seed = data.get("seed", ctx.seed)
